@@ -662,3 +662,17 @@ func (ex *Exec) sprintArgs(fr *frame, args *Slice, ln bool) *Str {
 	}
 	return out
 }
+
+// The mode/privilege String methods of package state format their receiver through
+// reflection; they are pure functions of *receiver. Model: the receiver is read (so
+// the lock monitor sees the access), the text is arbitrary.
+func init() {
+	for _, name := range []string{"ChanMode", "NickMode", "ChanPrivs"} {
+		models["(*"+repoMod+"/state."+name+").String"] = func(ex *Exec, fr *frame, a []Value) Value {
+			if p, ok := a[0].(*Ptr); ok && p.Obj != nil && ex.watchObj != nil {
+				ex.guard(ex.watchObj[p.Obj], false, p.Obj.Label+" (formatted by String)")
+			}
+			return &Str{B: []*Term{ex.B.Const(8, '+')}}
+		}
+	}
+}
